@@ -9,17 +9,18 @@ THEORY = "pysmt.logics.Theory"
 LOGIC = "pysmt.logics.Logic"
 
 EXPLANATION = (
-    "Static analysis of pysmt/oracles.py and pysmt/logics.py: TheoryOracle interpreted from source on "
-    "operator skeletons (every operator family, quantifiers and Boolean terms in unusual positions) "
-    "reports a theory that enables every feature the skeleton uses, computed independently from sorts "
-    "and operators (R1d); exhaustive dispatch (R0); no two "
-    "named logics share (theory, quantifier-freeness) (R3); get_closer_logic returns a minimal "
-    "element of {l | target <= l} with a deterministic tie-break and most_generic_logic the unique "
-    "maximum (R4, comprehension predicates in relational normal form); callers obtain the logic they "
-    "label with through these functions only (R5).")
-NOT_DECIDED = ["the partial-order axioms of Theory.__le__/combine over all flag valuations (pinned by the test-suite; "
-               "independent seeded changes there were all caught by existing tests)",
-               "minimality for every subset of supported-logic lists beyond the relational form of the selection (R4)"]
+    "Abstract interpretation of pysmt/oracles.py and pysmt/logics.py.  TheoryOracle interpreted on operator "
+    "skeletons (every operator family, quantifiers and Boolean terms in unusual positions) reports a theory "
+    "that enables every feature the skeleton uses, computed independently from sorts and operators (R1d).  The "
+    "module's own logic tables are obtained by interpreting its top level (the loop deriving the extended logics "
+    "included); on those concrete objects the real __le__ / __lt__ / __eq__ / combine / get_closer_logic / "
+    "most_generic_logic are interpreted: <= is reflexive, antisymmetric and transitive on all distinct theories "
+    "(all triples) and consistent on all pairs of logics, combine(a, b) is above a and b for all pairs, and for "
+    "every target logic and three supported sets get_closer_logic returns a supported logic above the target "
+    "with no supported logic strictly in between, or raises exactly when none is above (R2).  Exhaustive "
+    "dispatch (R0); no two named logics share (theory, quantifier-freeness) (R3); callers obtain the logic "
+    "they label with through the selection functions only (R5).")
+NOT_DECIDED = ["order axioms on theories that are not the theory of any named logic (arbitrary flag valuations)"]
 
 
 def run(ctx):
@@ -120,82 +121,6 @@ def run(ctx):
                             "pysmt/logics.py:1")
         ctx.floor(rs, 45)
 
-    if ctx.want("R4"):
-        rs = ctx.rule("R4", "selection: minimal element above the target, deterministic; unique maximum")
-        mm, f = repo.function("pysmt.logics.get_closer_logic")
-        comps = [n for n in ast.walk(f) if isinstance(n, ast.ListComp)]
-        cand = [c for c in comps if norm(c.generators[0].iter) == "supported_logics"]
-        if cand and len(cand[0].generators[0].ifs) == 1:
-            cond = norm(cand[0].generators[0].ifs[0])
-            var = norm(cand[0].generators[0].target)
-            if cond in ("logic <= %s" % var, "%s >= logic" % var, "logic.__le__(%s)" % var):
-                rs.ok({"candidates": "{l in supported | target <= l}"})
-            else:
-                ctx.finding(rs, "pysmt.logics.get_closer_logic|candidates",
-                            "candidate set is {%s | %s}; it must be the supported logics above the target (logic <= l)"
-                            % (var, cond), repo.loc(mm, cand[0]))
-        else:
-            rs.unrec("candidate comprehension")
-        mins = [c for c in comps if norm(c.generators[0].iter) == "candidates"]
-        if mins and len(mins[0].generators[0].ifs) == 1:
-            cond = mins[0].generators[0].ifs[0]
-            var = norm(mins[0].generators[0].target)
-            t = norm(cond)
-            # not any(l != k and k <= l for k in candidates)
-            good = False
-            if isinstance(cond, ast.UnaryOp) and isinstance(cond.op, ast.Not) and isinstance(cond.operand, ast.Call) \
-                    and attr_tail(cond.operand) == "any":
-                g = cond.operand.args[0]
-                if isinstance(g, ast.GeneratorExp) and norm(g.generators[0].iter) == "candidates":
-                    k = norm(g.generators[0].target)
-                    parts = set(norm(v) for v in g.elt.values) if isinstance(g.elt, ast.BoolOp) and isinstance(g.elt.op, ast.And) else set()
-                    ne = {"%s != %s" % (var, k), "%s != %s" % (k, var)}
-                    le = {"%s <= %s" % (k, var), "%s >= %s" % (var, k)}
-                    lt = {"%s < %s" % (k, var), "%s > %s" % (var, k)}
-                    if (parts & ne and parts & le and len(parts) == 2) or norm(g.elt) in lt:
-                        good = True
-                    elif parts & ne and ({"%s <= %s" % (var, k), "%s >= %s" % (k, var)} & parts):
-                        ctx.finding(rs, "pysmt.logics.get_closer_logic|maximal-not-minimal",
-                                    "the selection keeps candidates that no other candidate is above (maximal), "
-                                    "not those that no other candidate is below (minimal): the most general supported "
-                                    "logic is returned instead of the closest", repo.loc(mm, cond))
-                        good = None
-            if good:
-                rs.ok({"selection": "candidates with no other candidate below them (minimal)"})
-            elif good is False:
-                rs.unrec("minimality comprehension: %s" % t)
-        else:
-            rs.unrec("minimality comprehension")
-        rets = [n for n in ast.walk(f) if isinstance(n, ast.Return)]
-        if rets and norm(rets[-1].value).startswith("sorted(res, key=") and norm(rets[-1].value).endswith("[0]"):
-            rs.ok({"tie_break": norm(rets[-1].value)})
-        else:
-            rs.unrec("tie-break")
-        if "raise NoLogicAvailableError" in norm(f) and "len(candidates) == 0" in norm(f):
-            rs.ok({"no candidate": "raises NoLogicAvailableError"})
-        else:
-            rs.unrec("empty candidate set handling")
-        mm, f = repo.function("pysmt.logics.most_generic_logic")
-        comps = [n for n in ast.walk(f) if isinstance(n, ast.ListComp)]
-        if comps and norm(comps[0].generators[0].ifs[0]) in ("all((l >= x for x in logics))", "all((x <= l for x in logics))"):
-            rs.ok({"most_generic": "{l | forall x. l >= x}"})
-        elif comps:
-            ctx.finding(rs, "pysmt.logics.most_generic_logic|predicate",
-                        "most_generic_logic keeps %s" % norm(comps[0].generators[0].ifs[0]), repo.loc(mm, comps[0]))
-        if "if len(res) != 1:" in norm(f) and "raise NoLogicAvailableError" in norm(f):
-            rs.ok({"most_generic": "unique maximum or error"})
-        else:
-            rs.unrec("most_generic_logic uniqueness check")
-        # Logic.__le__ = theory order x reversed qf order
-        q, f = repo.method(LOGIC, "__le__")
-        t = norm(f)
-        if "self.theory <= other.theory and self.quantifier_free >= other.quantifier_free" in t:
-            rs.ok({"Logic.__le__": "theory <= and quantifier_free >="})
-        else:
-            rets = [n for n in ast.walk(f) if isinstance(n, ast.Return)]
-            rs.unrec("Logic.__le__: %s" % [norm(r.value) for r in rets])
-        ctx.floor(rs, 5)
-
     if ctx.want("R5"):
         rs = ctx.rule("R5", "callers label with a logic obtained through the selection functions")
         mm, f = repo.function("pysmt.oracles.get_logic")
@@ -216,5 +141,7 @@ def run(ctx):
             rs.unrec("get_closer_pysmt_logic")
         ctx.floor(rs, 2)
 
+    from . import c13_order
+    c13_order.run(ctx)
     from . import c13_deep
     c13_deep.run(ctx)
